@@ -17,5 +17,11 @@ CONSTANTS Names = {"n1","n2"}
           E = 4
           ChainMode = TRUE
           Prefix = 0
+          NB = 0
+          MinB = 0
+          PreC = 0
+          PostC = 0
+          SimMode = FALSE
+          Procs = {}
           Devs = {}
 
